@@ -263,6 +263,7 @@ impl<C: Cfg> World<C> {
         let ev0 = alloc::events();
         let rel0 = relocations();
         let mut cap_changes = 0u64;
+        let mut at_quarter = 0u64;
         let mut last_cap = self.vecs[0].as_ref().unwrap().capacity();
         for i in 0..n {
             let val = C::T::make(i as u32 + 1000);
@@ -279,6 +280,9 @@ impl<C: Cfg> World<C> {
                 return;
             }
             self.model[0].push(C::T::norm(i as u32 + 1000));
+            if i + 1 == n / 4 {
+                at_quarter = cap_changes;
+            }
             let c = self.vecs[0].as_ref().unwrap().capacity();
             if c != last_cap {
                 cap_changes += 1;
@@ -299,6 +303,13 @@ impl<C: Cfg> World<C> {
         self.nontrivial = true;
         self.class("amortisation");
         let _ = write!(tr, " -> {} capacity changes, {} allocator/backend events (limit {})", cap_changes, events, limit);
+        // logarithmic growth: quadrupling the number of pushes adds a constant number of capacity
+        // changes (2 for doubling, 4 for a factor of 1.5, 15 for a factor of 1.1); linear growth
+        // multiplies them
+        if k >= 8 && cap_changes - at_quarter > 16 {
+            self.fail(MON_CAP, "amortisation:not-logarithmic", format!("the first {} pushes caused {} capacity changes, the next {} caused {} more: not logarithmic in the number of pushes", n / 4, at_quarter, n - n / 4, cap_changes - at_quarter));
+            return;
+        }
         if events > limit || cap_changes > limit {
             self.fail(MON_CAP, "amortisation:too-many-reallocations", format!("{} pushes caused {} capacity changes / {} allocation events; more than the logarithmic bound {}", n, cap_changes, events, limit));
             return;
